@@ -20,8 +20,6 @@ Proof.
   - specialize (IH (if b =? 27 then c + 1 else 0)). lia.
 Qed.
 
-Lemma esc_as_enc_from p : esc p = enc_from 0 p.
-Proof. rewrite <- enc_fold_esc, enc_fold_from. reflexivity. Qed.
 
 (* ====================================================================================== *)
 (* buffer encoder                                                                          *)
